@@ -14,6 +14,7 @@ extracted table (Vita/C19/Props.lean) + correspondence on generated programs x f
     `vita::run` returns on every input vector (programs whose constants print exactly).
 """
 import ast as pyast
+from fractions import Fraction
 import concurrent.futures as cf
 import json
 import math
@@ -21,6 +22,7 @@ import os
 import re
 import struct
 import sys
+import time
 
 from vlib import common as C
 
@@ -120,6 +122,7 @@ class Gen:
     def __init__(self, rng, syms, exact):
         self.rng, self.syms, self.exact = rng, syms, exact
         self.funcs = [s for s in syms.values() if s.kind == "F"]
+        self._prod, self._prodw = {}, {}
 
     # -- terminals --------------------------------------------------------------------------
     def real_value(self, sign=None):
@@ -181,6 +184,20 @@ class Gen:
     # -- functions --------------------------------------------------------------------------
     def producers(self, dom):
         """[(sym, d0, d1)] of functions whose result domain can be `dom`"""
+        if dom not in self._prod:
+            self._prod[dom] = self._producers(dom)
+        return self._prod[dom]
+
+    def producers_within(self, dom, doms):
+        """the producers of `dom` whose categories all belong to `doms`"""
+        key = (dom, frozenset(doms))
+        if key not in self._prodw:
+            ds = key[1]
+            self._prodw[key] = [(s, d0, d1) for (s, d0, d1) in self.producers(dom)
+                                if d0 in ds and d1 in ds and all(d in ds for d in self.arg_doms(s, d0, d1))]
+        return self._prodw[key]
+
+    def _producers(self, dom):
         out = []
         for s in self.funcs:
             for d0 in sorted(set(dom0_of(s.key))):
@@ -323,8 +340,7 @@ def genome_stats(gen, G):
 def junk_gene(gen, rng, doms, dom, r, n):
     """an inactive gene of domain `dom` for row r of an n-row genome (valid: arguments in later rows)"""
     if r < n - 1 and rng.chance(0.55):
-        ps = [(s, d0, d1) for (s, d0, d1) in gen.producers(dom)
-              if d0 in doms and d1 in doms and all(d in doms for d in gen.arg_doms(s, d0, d1))]
+        ps = gen.producers_within(dom, doms)
         if ps:
             s, d0, d1 = rng.choice(ps)
             return ("F", s.key, (d0, d1), [rng.between(r + 1, n) for _ in range(s.arity)])
@@ -427,8 +443,7 @@ def random_genome(gen, rng, n, doms, pfun=0.7):
         for c, d in enumerate(doms):
             g = None
             if r < n - 1 and (r == 0 and c == 0 or rng.chance(pfun)):
-                ps = [(s, d0, d1) for (s, d0, d1) in gen.producers(d)
-                      if d0 in doms and d1 in doms and all(x in doms for x in gen.arg_doms(s, d0, d1))]
+                ps = gen.producers_within(d, doms)
                 if ps:
                     s, d0, d1 = rng.choice(ps)
                     g = ("F", s.key, (d0, d1), [rng.between(r + 1, n) for _ in range(s.arity)])
@@ -921,6 +936,12 @@ def show(t):
 def run(chk, replay=None):
     rng = C.SplitMix(chk.seed)
     quick = chk.tier == "quick"
+    phases, t_last = {}, [time.time()]
+
+    def phase(name):
+        now = time.time()
+        phases[name] = round(phases.get(name, 0) + now - t_last[0], 1)
+        t_last[0] = now
     gen_path = os.path.join(C.LEAN, "Vita", "C19", "GenTemplates.lean")
     broken = []
     table_ok = False
@@ -951,6 +972,7 @@ def run(chk, replay=None):
         if not ok:
             broken.append("theorems of Vita.C19.Props no longer check over the extracted table: " + msg)
 
+    phase("translate+lake+audit")
     exe = C.build_harness("c19_lang", "asan")
     rc, so, se = C.run_harness(exe, inp="syms\n")
     if rc != 0 or not so.strip():
@@ -989,6 +1011,7 @@ def run(chk, replay=None):
                 broken.append("terminal class %s missing from the extracted table" % k)
                 drv_ok = False
 
+    phase("build vita+harness")
     # ---- programs ----------------------------------------------------------------------------
     g_exact = Gen(rng, syms, True)
     g_any = Gen(rng, syms, False)
@@ -1147,6 +1170,7 @@ def run(chk, replay=None):
         if os.environ.get("VERIF_C19_DEBUG") and unfold(g_exact, genomes[pid][0]) != t:
             raise RuntimeError("layout does not unfold to the program: " + show(t))
 
+    phase("generate programs+layouts")
     # ---- run vita -----------------------------------------------------------------------------
     nin = 3 if quick else 6
     lines, inputs_of = [], {}
@@ -1212,19 +1236,55 @@ def run(chk, replay=None):
         if head[4:] != ["valid=1"]:
             broken.append("i_mep::is_valid() rejects a generated genome: %s" % json.dumps(genomes[pid][0].to_json()))
 
+    phase("harness (vita)")
+    # ---- the oracles and the model run side by side -------------------------------------------------
+    # clang's parser (C and C++): actual vs fully parenthesised
+    def clang_job(lang, f):
+        A, B = {}, {}
+        # programs with unescaped quotes etc. go to their own translation unit (error cascades)
+        for part, ids in (("n", [p for p in sorted(texts) if str_class(programs[p][0]) == "none"]),
+                          ("s", [p for p in sorted(texts) if str_class(programs[p][0]) != "none"])):
+            if not ids:
+                continue
+            A.update(clang_trees("ast_%s_%s_a" % (lang, part), lang,
+                                 [(p, result_dom(syms, programs[p][0]), texts[p][f]) for p in ids]))
+            B.update(clang_trees("ast_%s_%s_b" % (lang, part), lang,
+                                 [(p, result_dom(syms, programs[p][0]), oracle_text(syms, programs[p][0], f, True))
+                                  for p in ids]))
+        return lang, f, A, B
+
+    # gcc: compile + run the C text
+    def sife_on_strings(t):
+        return t[0] == "F" and ((t[1] == "str::ife" and t[2][0] == "S") or any(sife_on_strings(k) for k in t[3]))
+
+    exact_ids = []
+    for p in sorted(texts):
+        if not prints_exactly(programs[p][0]):
+            chk.count("value_check_skipped_constants_do_not_print_exactly")
+        else:
+            if sife_on_strings(programs[p][0]):
+                chk.count("value_check_programs_with_sife_on_strings")
+            exact_ids.append(p)
+    batches = [exact_ids[i:i + 400] for i in range(0, len(exact_ids), 400)]
+
+    def gcc_job(bi):
+        b = batches[bi]
+        return compile_and_run("run_%d" % bi, [(p, result_dom(syms, programs[p][0]), texts[p][0]) for p in b], inputs_of)
+
+    ex = cf.ThreadPoolExecutor(6)
     # ---- model (driver) ------------------------------------------------------------------------
-    verdict = {}
+    dl, keys, dj = [], [], []
     if drv_ok:
-        dl, keys = [], []
         for pid in texts:
             tt = driver_genome(g_exact, genomes[pid][0], fidx, tidx) + " " + driver_tree(programs[pid][0], fidx, tidx)
             for f in range(4):
                 dl.append("gchk %d %s %s" % (f, hx(texts[pid][f]), tt))
                 keys.append((pid, f))
-        ans = C.run_driver("c19_driver", dl)
-        for k, a in zip(keys, ans):
-            verdict[k] = a
-
+        step = max(1, (len(dl) + 2) // 3)
+        dj = [ex.submit(C.run_driver, "c19_driver", dl[i:i + step]) for i in range(0, len(dl), step)]
+    cj = [ex.submit(clang_job, "c", 0), ex.submit(clang_job, "cpp", 1)]
+    gj = [ex.submit(gcc_job, i) for i in range(len(batches))]
+    phase("submit oracles+model")
     # ---- teams and stream histories (format selection) -------------------------------------------------
     fails = []       # (size, what, replay, tags)
     doc_kind = {"c": ("lang", 0), "cpp": ("lang", 1), "mql": ("lang", 2), "py": ("lang", 3)}
@@ -1384,6 +1444,12 @@ def run(chk, replay=None):
         broken.append("generator: %d type-compatible (parent, position, child) triples were not exercised, e.g. %r"
                       % (len(missing), missing[0]))
 
+    phase("teams+streams+stats")
+    verdict = {}
+    ans = [a for j in dj for a in j.result()]
+    for k, a in zip(keys, ans):
+        verdict[k] = a
+    phase("driver (Lean model, waited)")
     # ---- per program / format checks ---------------------------------------------------------------
 
     def fail(pid, f, kind, detail):
@@ -1420,6 +1486,11 @@ def run(chk, replay=None):
             if flags.get("unf") != "1":
                 broken.append("the Lean model unfolds the genome of %s into a different program than the generator"
                               % show(t))
+            if flags.get("exact") != ("1" if nums_exact(t) else "0"):
+                broken.append("the model's class `constants print exactly` (exact6 / intExact) differs from the "
+                              "exact rational test (v * 10^6 is a whole number) on %s" % show(t))
+            elif f == 0:
+                chk.count("constants_print_exactly:" + flags.get("exact", "?"))
             if flags.get("wf") != "1":
                 broken.append("wfRows (model of i_mep::is_valid) rejects a genome that is_valid() accepts: %s" % show(t))
             if flags["render"] != "1":
@@ -1448,6 +1519,7 @@ def run(chk, replay=None):
                      "sequential replace_all differs from simultaneous substitution")
     chk.cov["model_vs_code_text_disagreements"] = ndis_model
 
+    phase("per-program flags")
     # Python's own parser
     for pid in texts:
         t = programs[pid][0]
@@ -1459,56 +1531,23 @@ def run(chk, replay=None):
         elif a != b:
             fail(pid, 3, "python-ast", "python3's parse differs from the parse of the fully parenthesised substitution")
 
-    # clang's parser (C and C++): actual vs fully parenthesised
-    def clang_job(lang, f):
-        A, B = {}, {}
-        # programs with unescaped quotes etc. go to their own translation unit (error cascades)
-        for part, ids in (("n", [p for p in sorted(texts) if str_class(programs[p][0]) == "none"]),
-                          ("s", [p for p in sorted(texts) if str_class(programs[p][0]) != "none"])):
-            if not ids:
-                continue
-            A.update(clang_trees("ast_%s_%s_a" % (lang, part), lang,
-                                 [(p, result_dom(syms, programs[p][0]), texts[p][f]) for p in ids]))
-            B.update(clang_trees("ast_%s_%s_b" % (lang, part), lang,
-                                 [(p, result_dom(syms, programs[p][0]), oracle_text(syms, programs[p][0], f, True))
-                                  for p in ids]))
-        return lang, f, A, B
+    phase("python ast")
+    clang_res, gcc_res = [], []
+    for j in cj:
+        try:
+            clang_res.append(j.result())
+        except OracleTimeout as e:
+            chk.count("oracle_batches_skipped_timeout(clang)")
+            chk.notes.append("a clang AST batch timed out twice (overloaded machine): skipped, no verdict from it")
+    for j in gj:
+        try:
+            gcc_res.append(j.result())
+        except OracleTimeout as e:
+            chk.count("oracle_batches_skipped_timeout(gcc)")
+            chk.notes.append("a gcc batch timed out twice (overloaded machine): skipped, no verdict from it")
+    ex.shutdown()
 
-    # gcc: compile + run the C text
-    def sife_on_strings(t):
-        return t[0] == "F" and ((t[1] == "str::ife" and t[2][0] == "S") or any(sife_on_strings(k) for k in t[3]))
-
-    exact_ids = []
-    for p in sorted(texts):
-        if not prints_exactly(programs[p][0]):
-            chk.count("value_check_skipped_constants_do_not_print_exactly")
-        else:
-            if sife_on_strings(programs[p][0]):
-                chk.count("value_check_programs_with_sife_on_strings")
-            exact_ids.append(p)
-    batches = [exact_ids[i:i + 400] for i in range(0, len(exact_ids), 400)]
-
-    def gcc_job(bi):
-        b = batches[bi]
-        return compile_and_run("run_%d" % bi, [(p, result_dom(syms, programs[p][0]), texts[p][0]) for p in b], inputs_of)
-
-    with cf.ThreadPoolExecutor(6) as ex:
-        cj = [ex.submit(clang_job, "c", 0), ex.submit(clang_job, "cpp", 1)]
-        gj = [ex.submit(gcc_job, i) for i in range(len(batches))]
-        clang_res, gcc_res = [], []
-        for j in cj:
-            try:
-                clang_res.append(j.result())
-            except OracleTimeout as e:
-                chk.count("oracle_batches_skipped_timeout(clang)")
-                chk.notes.append("a clang AST batch timed out twice (overloaded machine): skipped, no verdict from it")
-        for j in gj:
-            try:
-                gcc_res.append(j.result())
-            except OracleTimeout as e:
-                chk.count("oracle_batches_skipped_timeout(gcc)")
-                chk.notes.append("a gcc batch timed out twice (overloaded machine): skipped, no verdict from it")
-
+    phase("clang+gcc oracles")
     for lang, f, A, B in clang_res:
         for pid in texts:
             a, b = A.get(pid), B.get(pid)
@@ -1623,6 +1662,8 @@ def run(chk, replay=None):
     chk.count("programs_compiled_with_gcc", sum(len(v) for v, _ in gcc_res))
     chk.cov["programs"] = len(texts)
 
+    phase("compare+attribute")
+    chk.cov["phase_seconds"] = phases
     # ---- verdict ------------------------------------------------------------------------------------
     fails.sort(key=lambda x: x[0])
     if os.environ.get("VERIF_C19_DEBUG"):
@@ -1691,6 +1732,25 @@ def prints_exactly(t):
             cl = set()
             sclass(tm[2], cl)
             if cl:
+                return False
+    return True
+
+
+def nums_exact(t):
+    """the class "constants print exactly" for the numeric terminals, as Vita.C19.exactT defines it:
+       std::to_string(double) classes: the 6 printed decimals ARE the value (a whole number of millionths);
+       std::to_string(int) classes: the value is a whole number that fits an int.  (`prints_exactly` below is
+       the larger round-trip class used for the compile-and-run oracle: the decimal text converts back to the
+       same double, e.g. 0.1 -> `0.100000` -> 0.1.)"""
+    for tm in terminals_of(t):
+        k = tm[1]
+        if k in ("real::real", "integer::number", "const:d"):
+            v = bitsd(term_bits(tm))
+            if not math.isfinite(v) or (Fraction(v) * 1000000).denominator != 1:
+                return False
+        elif k in ("real::integer", "const:i"):
+            v = bitsd(term_bits(tm))
+            if not math.isfinite(v) or v != int(v) or abs(v) > 2147483647:
                 return False
     return True
 
